@@ -1464,6 +1464,7 @@ Proof.
         + destruct He1.
       - intros o' Ho'. apply Hh. right. exact Ho'. }
     destruct e as [k0 v0]. cbn [fst]. f_equal.
+    change v0 with (snd (k0, v0)).
     apply (Hz (set_hist ops) [] (fun e0 (H0 : In e0 []) => match H0 with end)); [|exact He].
     intros o Ho. unfold set_hist in Ho. apply in_flat_map in Ho. destruct Ho as (op0 & _ & Ho).
     destruct op0; cbn [set_hist1] in Ho; try contradiction.
